@@ -1,0 +1,149 @@
+//go:build verif
+
+// Specification functions for the contracts checked by /verif (govc).
+// Written from the format documents (WebP Lossless Bitstream Specification,
+// RFC 6386), channel by channel and without bit tricks; compiled only under
+// the verif build tag. They are the meaning of "what the format defines" in
+// the lemmas of the zz_contracts_verif.go files.
+
+package dsp
+
+// ---- WebP lossless bitstream specification: pixel arithmetic ----
+
+func specCh(p uint32, i uint) int32 { return int32((p >> (8 * i)) & 0xff) }
+
+func specPack(c3, c2, c1, c0 int32) uint32 {
+	return uint32(c3&0xff)<<24 | uint32(c2&0xff)<<16 | uint32(c1&0xff)<<8 | uint32(c0&0xff)
+}
+
+func specClamp255(v int32) int32 {
+	if v < 0 {
+		return 0
+	}
+	if v > 255 {
+		return 255
+	}
+	return v
+}
+
+func specAbs(v int32) int32 {
+	if v < 0 {
+		return -v
+	}
+	return v
+}
+
+// SpecAddPixels: each channel of the residual is added modulo 256.
+func SpecAddPixels(a, b uint32) uint32 {
+	return specPack(specCh(a, 3)+specCh(b, 3), specCh(a, 2)+specCh(b, 2), specCh(a, 1)+specCh(b, 1), specCh(a, 0)+specCh(b, 0))
+}
+
+// SpecSubPixels: per-channel difference modulo 256.
+func SpecSubPixels(a, b uint32) uint32 {
+	return specPack(specCh(a, 3)-specCh(b, 3), specCh(a, 2)-specCh(b, 2), specCh(a, 1)-specCh(b, 1), specCh(a, 0)-specCh(b, 0))
+}
+
+// SpecAverage2: "Average2(a, b) = (a + b) / 2" per channel.
+func SpecAverage2(a, b uint32) uint32 {
+	return specPack((specCh(a, 3)+specCh(b, 3))/2, (specCh(a, 2)+specCh(b, 2))/2, (specCh(a, 1)+specCh(b, 1))/2, (specCh(a, 0)+specCh(b, 0))/2)
+}
+
+// SpecSelect: the Select predictor of the specification. The estimate is
+// L + T - TL per channel; the Manhattan distance of L to it is sum|T-TL| and
+// that of T is sum|L-TL|; L is returned when it is strictly closer.
+func SpecSelect(l, t, tl uint32) uint32 {
+	pL, pT := int32(0), int32(0)
+	for i := uint(0); i < 4; i++ {
+		est := specCh(l, i) + specCh(t, i) - specCh(tl, i)
+		pL += specAbs(est - specCh(l, i))
+		pT += specAbs(est - specCh(t, i))
+	}
+	if pL < pT {
+		return l
+	}
+	return t
+}
+
+// SpecClampAddSubtractFull: Clamp(a + b - c) per channel.
+func SpecClampAddSubtractFull(a, b, c uint32) uint32 {
+	return specPack(specClamp255(specCh(a, 3)+specCh(b, 3)-specCh(c, 3)), specClamp255(specCh(a, 2)+specCh(b, 2)-specCh(c, 2)),
+		specClamp255(specCh(a, 1)+specCh(b, 1)-specCh(c, 1)), specClamp255(specCh(a, 0)+specCh(b, 0)-specCh(c, 0)))
+}
+
+// SpecClampAddSubtractHalf: Clamp(a + (a - b) / 2) per channel.
+func SpecClampAddSubtractHalf(a, b uint32) uint32 {
+	h := func(x, y int32) int32 { return specClamp255(x + (x-y)/2) }
+	return specPack(h(specCh(a, 3), specCh(b, 3)), h(specCh(a, 2), specCh(b, 2)), h(specCh(a, 1), specCh(b, 1)), h(specCh(a, 0), specCh(b, 0)))
+}
+
+// SpecPredict: the 14 prediction modes of the predictor transform.
+func SpecPredict(mode int, l, t, tr, tl uint32) uint32 {
+	switch mode {
+	case 0:
+		return 0xff000000
+	case 1:
+		return l
+	case 2:
+		return t
+	case 3:
+		return tr
+	case 4:
+		return tl
+	case 5:
+		return SpecAverage2(SpecAverage2(l, tr), t)
+	case 6:
+		return SpecAverage2(l, tl)
+	case 7:
+		return SpecAverage2(l, t)
+	case 8:
+		return SpecAverage2(tl, t)
+	case 9:
+		return SpecAverage2(t, tr)
+	case 10:
+		return SpecAverage2(SpecAverage2(l, tl), SpecAverage2(t, tr))
+	case 11:
+		return SpecSelect(l, t, tl)
+	case 12:
+		return SpecClampAddSubtractFull(l, t, tl)
+	case 13:
+		return SpecClampAddSubtractHalf(SpecAverage2(l, t), tl)
+	}
+	return 0xff000000
+}
+
+// SpecAddGreen / SpecSubGreen: the subtract-green transform and its inverse.
+func SpecAddGreen(p uint32) uint32 {
+	g := specCh(p, 1)
+	return specPack(specCh(p, 3), specCh(p, 2)+g, g, specCh(p, 0)+g)
+}
+
+func SpecSubGreen(p uint32) uint32 {
+	g := specCh(p, 1)
+	return specPack(specCh(p, 3), specCh(p, 2)-g, g, specCh(p, 0)-g)
+}
+
+// specDelta: "ColorTransformDelta(int8 t, int8 c) = (t * c) >> 5".
+func specDelta(t, c int8) int32 { return (int32(t) * int32(c)) >> 5 }
+
+// SpecColorInverse: inverse colour transform of the specification with
+// multipliers green_to_red, green_to_blue, red_to_blue.
+func SpecColorInverse(g2r, g2b, r2b uint8, p uint32) uint32 {
+	green := int8(uint8(p >> 8))
+	red := int32(uint8(p >> 16))
+	blue := int32(uint8(p))
+	red += specDelta(int8(g2r), green)
+	red &= 0xff
+	blue += specDelta(int8(g2b), green)
+	blue += specDelta(int8(r2b), int8(uint8(red)))
+	blue &= 0xff
+	return (p & 0xff00ff00) | uint32(red)<<16 | uint32(blue)
+}
+
+// SpecColorForward: forward colour transform (encoder side).
+func SpecColorForward(g2r, g2b, r2b uint8, p uint32) uint32 {
+	green := int8(uint8(p >> 8))
+	red := int8(uint8(p >> 16))
+	nr := int32(uint8(p>>16)) - specDelta(int8(g2r), green)
+	nb := int32(uint8(p)) - specDelta(int8(g2b), green) - specDelta(int8(r2b), red)
+	return (p & 0xff00ff00) | uint32(nr&0xff)<<16 | uint32(nb&0xff)
+}
